@@ -21,7 +21,7 @@ pub static DEF: PropDef = PropDef {
         "for naturals in [2^31, 2^32) both the exact value and an error are accepted (statement promises 1..2^31-1)",
     ],
     shards: (16, 64),
-    budget_ms: (5_000, 20_000),
+    budget_ms: (60_000, 180_000),
 };
 
 type SliceIter<'a> = BitIter<std::iter::Copied<std::slice::Iter<'a, u8>>>;
